@@ -20,12 +20,13 @@ RULE = ("real Snapshot.take and async_take+wait on 1-4 simulated ranks with the 
         "(workload, mode, schedule, r, n).")
 TRUSTED = [
     "Coq 8.16.1 kernel and vm_compute; theorems closed under the global context",
-    "translator/gen_commit.py; barrier semantics of coq/model/Commit.v (a raised rank never arrives; no timeouts)",
+    "translator/gen_commit.py; barrier semantics of coq/model/Commit.v (a raised rank never arrives; a rank blocked in a barrier may time out and raise)",
     "harness: lib/dsched.py + lib/world.py (failure injected in the hooked FS plugin before the bytes are written)",
 ]
 ASSUMPTIONS = [
-    "in the synchronous variant peers of a failed rank stay blocked in the collective barrier (in a real job they raise "
-    "when the process-group timeout fires); blocked is counted as 'did not report success'",
+    "in the synchronous variant peers of a failed rank stay blocked in the collective barrier until the process-group "
+    "timeout fires; the model has a timeout action (a blocked rank may give up and raise at any time, also spuriously) and "
+    "every theorem holds with it; the harness does not simulate timeouts: a blocked peer is counted as 'did not report success'",
     "the async variant's error propagation through the store barrier is proved under C13 and exercised here end to end",
 ]
 IMPORTS = "From TS Require Import model.Commit.\n"
@@ -92,6 +93,10 @@ def correspond(ctx: Ctx) -> Result:
                         res.failures.append(Failure(f"C03:{mode}:success-reported-without-commit",
                                                     f"ranks {returned} reported success although the snapshot was not committed (failed write #{fn_} of rank {fr}) [W={wl['W']} sched={sched}]", replay))
                     if mode == "sync":
+                        if returned:
+                            # C03_sync_failure_means_nobody_returns: after any failed storage write no rank's take() returns
+                            res.failures.append(Failure("C03:sync:rank-returned-after-a-failed-write",
+                                                        f"ranks {returned} returned normally from take() although write #{fn_} of rank {fr} failed [W={wl['W']} sched={sched}]", replay))
                         if world.errors[fr] is None or isinstance(world.errors[fr], Deadlock):
                             res.failures.append(Failure("C03:sync:failing-rank-did-not-raise",
                                                         f"rank {fr}'s write #{fn_} failed but its take() did not raise: {world.errors[fr]!r}", replay))
@@ -158,12 +163,13 @@ MANIFEST = {
     "level_text": ("Machine-checked proof (Coq 8.16.1) over the same source-translated commit skeleton as C02, with failure "
                    "events: in every run of the synchronous protocol (any ranks, workloads, interleavings, any failing write) an "
                    "incomplete payload implies the metadata file does not exist in any form, the failing rank raises and stays "
-                   "raised, and no rank returns unless the metadata is complete. Tied to the code by the translator (per-run "
+                   "raised, no rank returns unless the metadata is complete, and once any storage write has failed no rank "
+                   "returns at all (peers can only time out in a barrier and raise: timeouts are part of the model). Tied to the code by the translator (per-run "
                    "checker obligation) and by fault injection on the real take/async_take in a simulated multi-rank world: the "
                    "n-th write of rank r fails for every (r, n) of the generated workloads; real traces must be accepted by the "
                    "model and satisfy the property directly."),
-    "level_note": ("Trusted: Coq kernel+VM, translator, barrier semantics without timeouts (peers of a failed rank block; in reality "
-                   "they raise on the process-group timeout), simulated process group/store/FS. Async error propagation is proved "
+    "level_note": ("Trusted: Coq kernel+VM, translator, barrier semantics with a nondeterministic timeout action (the real "
+                   "gloo timeout is not exercised by the harness), simulated process group/store/FS. Async error propagation is proved "
                    "under C13. No axioms."),
     "technique": "Coq safety proofs over the source-translated commit skeleton with failure events + exhaustive (rank, write) fault injection on real code",
     "design_ref": "DESIGN.md section 5, C03",
